@@ -25,7 +25,7 @@ from ..poly import Poly
 from ..mir import fmt, walk, const_val
 
 EXPLANATION = __doc__
-TECHNIQUE = "canonical dataflow expressions, truth tables of branch predicates over atomic comparisons, polynomial normal form of the per-case index arithmetic (term-domain dataflow), evaluated constants"
+TECHNIQUE = "canonical dataflow expressions, truth tables of branch predicates over atomic comparisons, polynomial normal form of the per-case index arithmetic (term-domain dataflow), evaluated constants; bounded shape evaluation (concrete offsets / lengths derived from the code's own length constants, symbolic contents, opaque recorded leaf calls) of the buffering loops"
 
 M = "kdf::argon2::"
 
